@@ -115,6 +115,13 @@ static void icosa_band(int quick) {
     }
 }
 
+/* cells up to 1e-2 rad around the 20 face centres (where the gnomonic projection starts), fine resolutions: points next to their edges */
+static void face_band(int quick) {
+    for (int k = 0; k < 2; k++) { int res = k ? 15 - (int)vt_randn(2) : 12 + (int)vt_randn(2); CellVec cv = {0}; cv_face_centre_cells(&cv, res, quick ? 2 : 8);
+        for (int64_t i = 0; i < cv.n; i++) { LatLng g; cellToLatLng(cv.v[i], &g); ev_ll("face-band", g.lat, g.lng, res, cv.v[i], cv.v[i]); cell_points_lite(cv.v[i], quick ? 6 : 12); }
+        cv_free(&cv); }
+}
+
 static void icosa_points(int quick) {
     H3Index p[12]; LatLng g[12]; getPentagons(0, p); L3 v[12];
     for (int i = 0; i < 12; i++) { cellToLatLng(p[i], &g[i]); v[i] = l3_of(&g[i]); }
@@ -229,7 +236,7 @@ int main(int argc, char **argv) {
         for (int64_t i = 0; i < cv.n; i++) { if (res <= 1 && quick && i % (res ? 3 : 1) && !isPentagon(cv.v[i])) continue; if (res == 2 && i % 3 && !isPentagon(cv.v[i])) continue; cell_points(cv.v[i], quick); }
         cv_free(&cv);
     }
-    icosa_points(quick); icosa_band(quick); pole_points(quick); random_points(quick ? 8000 : 100000); domain_points(quick ? 1500 : 10000);
+    icosa_points(quick); icosa_band(quick); face_band(quick); pole_points(quick); random_points(quick ? 8000 : 100000); domain_points(quick ? 1500 : 10000);
     fprintf(stderr, "events=%ld worst_dev=%.3Lg rad worst dev/tol=%.4f\n", n_events, worst_dev, worst_ratio_ppm / 1e6);
     vt_close(); return 0;
 }
